@@ -666,6 +666,15 @@ func (s *ScopedKeyManager) DeriveFromKeyPathCache(
 	s.mtx.Lock()
 	defer s.mtx.Unlock()
 
+	// No private key may be handed out while the manager is watching-only
+	// or locked, not even one that was derived and cached earlier.
+	if s.rootManager.WatchOnly() {
+		return nil, managerError(ErrWatchingOnly, errWatchingOnly, nil)
+	}
+	if s.rootManager.IsLocked() {
+		return nil, managerError(ErrLocked, errLocked, nil)
+	}
+
 	// First, try to look up the key itself in the proper cache, if the key
 	// is here, then we don't need to do anything further.
 	privKeyVal, err := s.privKeyCache.Get(kp)
